@@ -79,6 +79,8 @@ def canon_model(op, r):
 
 def run(scenarios, shards=16):
     """-> list of records dict(scenario, pattern, namespaces, op, real, model)"""
+    if not lib.DRIVER_OK:
+        return []
     drv = lib.Driver()
     blocks, index = [], []
     for si, sc in enumerate(scenarios):
